@@ -502,6 +502,14 @@ def r4_unchecked(ctx):
             idx = ne(fn.expr(c.args[1]))
             facts = cmp_facts(fn, c.block)
             st, fact = upper_bound(facts, idx, ("len", cont))
+            if st != "ok":
+                # the length may have been given a name first (`let len = items.len()`): a named local with one definition
+                # whose value is this vector's length is the same bound
+                for li, loc in enumerate(fn.locals):
+                    if loc["name"] and li > fn.argc and len(fn.whole_defs(li)) == 1 and ne(fn.deep(li)) in (("len", cont), ("len", ne(fn.deep(c.args[0])))):
+                        st2, fact2 = upper_bound(facts, idx, ("var", loc["name"]))
+                        if st2 == "ok" or (st2 == "offbyone" and st == "none"):
+                            st, fact = st2, fact2
             key = "%s|%s[%s]" % (parent_fn(fn.id), sh(cont), sh(idx))
             if st == "ok":
                 ctx.ok(key, fn.where(c.block), "edge-dominated by %s(%s,%s)" % (fact[0], sh(fact[1]), sh(fact[2])))
